@@ -3,7 +3,7 @@ L2 Spec — what a built instance advertises: `len()`, and the three scratch len
 `get_inplace_scratch_len / get_outofplace_scratch_len / get_immutable_scratch_len`, computed with the
 constructors' own formulas; every constructor `assert!` is an `Except.error`.
 
-The scratch *formulas* of the portable algorithms live in `RFV.Gen.Scratch`, which the translator T1
+The scratch *formulas* of the portable algorithms and of the AVX / SSE algorithms that wrap inner transforms live in `RFV.Gen.Scratch`, which the translator T1
 regenerates from /repo on every run; this file only wires them to the tree.
 -/
 import RFV.Model.Avx
@@ -121,7 +121,7 @@ def Recipe.spec (ty : ElemTy) : Recipe → Except String Spec
       if ¬ (base.len % (2 * complexPerVectorSse ty) = 0 ∧ base.len > 0) then
         .error "SseRadix4::new: assert!(base_len % (2 * COMPLEX_PER_VECTOR) == 0 && base_len > 0)" else
       let len := base.len * 2 ^ (2 * k)
-      .ok { len, inplace := len, oop := 0, immut := 0 }
+      .ok { len, inplace := Gen.sseRadix4_inplace len, oop := Gen.sseRadix4_oop len, immut := Gen.sseRadix4_immut len }
   | .avxBfly n =>
     .ok { len := n, inplace := if (avxBflyWithScratch ty).contains n then n else 0, oop := 0, immut := 0 }
   | .avxMixedRadix radix i =>
@@ -129,8 +129,8 @@ def Recipe.spec (ty : ElemTy) : Recipe → Except String Spec
     | .error e => .error e
     | .ok inner =>
       let len := inner.len * radix
-      .ok { len, inplace := len + inner.oop, oop := if inner.inplace > len then inner.inplace else 0,
-            immut := len + inner.inplace }
+      .ok { len, inplace := Gen.avxMixedRadix_inplace len inner, oop := Gen.avxMixedRadix_oop len inner,
+            immut := Gen.avxMixedRadix_immut len inner }
   | .avxRaders i =>
     match i.spec ty with
     | .error e => .error e
@@ -139,8 +139,8 @@ def Recipe.spec (ty : ElemTy) : Recipe → Except String Spec
       match radersAsserts len with
       | .error e => .error e
       | .ok _ =>
-        let extra := if inner.inplace ≤ inner.len then 0 else inner.inplace
-        .ok { len, inplace := len + extra, oop := extra, immut := inner.len + inner.inplace + 1 }
+        .ok { len, inplace := Gen.avxRaders_inplace inner, oop := Gen.avxRaders_oop inner,
+              immut := Gen.avxRaders_immut inner }
   | .avxBluesteins n i =>
     match i.spec ty with
     | .error e => .error e
@@ -148,7 +148,7 @@ def Recipe.spec (ty : ElemTy) : Recipe → Except String Spec
       if n = 0 then .error "BluesteinsAvx::new: len * 2 - 1 underflows" else
       if ¬ (n * 2 - 1 ≤ inner.len) then .error "BluesteinsAvx::new: assert!(len * 2 - 1 <= inner_fft_len)" else
       if inner.len % complexPerVectorAvx ty ≠ 0 then .error "BluesteinsAvx::new: assert_eq!(inner_fft_len % COMPLEX_PER_VECTOR, 0)" else
-      let s := inner.len + inner.inplace
+      let s := Gen.avxBluesteins_scratch inner
       .ok { len := n, inplace := s, oop := s, immut := s }
 
 def Spec.text (s : Spec) : String := s!"{s.len} {s.inplace} {s.oop} {s.immut}"
